@@ -272,24 +272,40 @@ def setup(ctx):
     _state.update(ctx=ctx, xr=xr, cm=cm, pt=pt, xsf=xsf, cromermann=cromermann)
     orig_sf, orig_mr = _install_contracts(xsf, cromermann)
     reach = Reach()
-    reach.watch(_inner(orig_sf), 'Xray.scattering_factors')
-    reach.watch(xsf.Xray._gettable, 'Xray._gettable')
-    reach.watch(_inner(xsf.Xray.sld), 'Xray.sld')
-    reach.watch(_inner(xsf.Xray.f0), 'Xray.f0')
-    reach.watch(_inner(xsf.xray_sld), 'xray_sld')
-    reach.watch(_inner(xsf.index_of_refraction), 'index_of_refraction')
-    reach.watch(_inner(orig_mr), 'mirror_reflectivity')
-    reach.watch(_inner(xsf.xray_energy), 'xray_energy')
-    reach.watch(_inner(xsf.xray_wavelength), 'xray_wavelength')
-    reach.watch(_inner(cromermann.fxrayatstol), 'fxrayatstol')
-    reach.watch(cromermann.CromerMannFormula.atstol, 'CromerMannFormula.atstol')
-    reach.watch(cromermann._update_cmformulas, '_update_cmformulas')
+    _state['anchors_missing'] = set()
+
+    def watch(owner, attr, label, fn=None):
+        """Reach counter on a library function looked up by name.  A private helper that is absent (renamed,
+        split, inlined) only loses its counter: `anchor_missing.reach.<label>` waives the requirement on it."""
+        if fn is None:
+            fn = getattr(owner, attr, None)
+        fn = _inner(getattr(fn, '__func__', fn)) if fn is not None else None
+        if getattr(fn, '__code__', None) is None:
+            _state['anchors_missing'].add(label)
+            ctx.count('anchor_missing.reach.' + label)
+            ctx.note('%s.%s not found as a Python function (refactored source?): reach counter %r is evidence only, '
+                     'its requirement is waived' % (getattr(owner, '__name__', owner), attr, label))
+            return
+        reach.watch(fn, label)
+
+    watch(xsf.Xray, 'scattering_factors', 'Xray.scattering_factors', fn=orig_sf)
+    watch(xsf.Xray, '_gettable', 'Xray._gettable')                     # private: optional
+    watch(xsf.Xray, 'sld', 'Xray.sld')
+    watch(xsf.Xray, 'f0', 'Xray.f0')
+    watch(xsf, 'xray_sld', 'xray_sld')
+    watch(xsf, 'index_of_refraction', 'index_of_refraction')
+    watch(xsf, 'mirror_reflectivity', 'mirror_reflectivity', fn=orig_mr)
+    watch(xsf, 'xray_energy', 'xray_energy')
+    watch(xsf, 'xray_wavelength', 'xray_wavelength')
+    watch(cromermann, 'fxrayatstol', 'fxrayatstol')
+    watch(getattr(cromermann, 'CromerMannFormula', None), 'atstol', 'CromerMannFormula.atstol')
+    watch(cromermann, '_update_cmformulas', '_update_cmformulas')      # private: optional
     for text, label in (('numpy.interp(energy, xsf[0], xsf[1]', 'interp_f1_line'),
                         ('numpy.interp(energy, xsf[0], xsf[2]', 'interp_f2_line'),
                         ('energy = xray_energy(wavelength)', 'sf_wavelength_branch')):
         try:
             reach.watch_line_matching(_inner(orig_sf), text, label)
-        except LookupError:
+        except Exception:  # noqa - no source for the function: the line counter is evidence only
             ctx.note('source line %r not found in Xray.scattering_factors (edited tree?)' % text)
     _state['reach'] = reach.start()
     ctx.info['tables_read_by_reference'] = len(xr.symbols)
@@ -1389,9 +1405,13 @@ def check_constants(ctx, case):
     from periodictable import constants
     ctx.evaluated(4, 'constants')
     for name in ('electron_radius', 'avogadro_number', 'plancks_constant', 'speed_of_light'):
-        if getattr(xsf, name, None) != getattr(constants, name):
+        if not hasattr(xsf, name):
+            # how xsf gets at the constants (from-import or module attribute access) is its private business
+            ctx.count('skipped.constants.not_a_module_global_of_xsf')
+            continue
+        if getattr(xsf, name) != getattr(constants, name):
             ctx.violation('periodictable.xsf.%s = %r but periodictable.constants.%s = %r'
-                          % (name, getattr(xsf, name, None), name, getattr(constants, name)), kind='constant')
+                          % (name, getattr(xsf, name), name, getattr(constants, name)), kind='constant')
     ctx.distinct_case(('constants',))
 
 
@@ -1407,13 +1427,12 @@ def classify(rec):
     d = rec.get('detail') or {}
     if not (d.get('dt_ion') is True and d.get('sibling_ok') is True):
         return None
+    # public symptoms only: which exception type / message reports the missing data is not fixed by the property
     if d.get('symptom') == 'no-xray-data':
         if rec.get('check') == 'compound':
-            if d.get('exc_type') == 'ValueError' and re.fullmatch(r'[DT]\{\d*[+-]\}', str(d.get('unavailable_atom'))):
-                return 'c05.dt-ion-xray'
-            return None
+            return 'c05.dt-ion-xray'
         if rec.get('check') == 'ions' and d.get('kind') == 'ion-no-table':
             return 'c05.dt-ion-xray'
-    if d.get('symptom') == 'no-f0-entry' and rec.get('check') == 'f0_atoms' and d.get('exc_type') == 'KeyError':
+    if d.get('symptom') == 'no-f0-entry' and rec.get('check') == 'f0_atoms':
         return 'c05.dt-ion-xray'
     return None
